@@ -89,15 +89,27 @@ type vDelegateRec struct {
 	bcast      [][]byte
 	localState []byte
 	bcastCalls int
+	bcastReturned int
 	lastOverhead, lastLimit int
 }
 
 func (d *vDelegateRec) NodeMeta(limit int) []byte { return d.meta }
 func (d *vDelegateRec) NotifyMsg(b []byte)        { d.msgs = append(d.msgs, b) }
+// GetBroadcasts honours the documented contract: the returned messages plus overhead fit the limit.
 func (d *vDelegateRec) GetBroadcasts(overhead, limit int) [][]byte {
 	d.bcastCalls++
 	d.lastOverhead, d.lastLimit = overhead, limit
-	return d.bcast
+	var out [][]byte
+	used := 0
+	for _, b := range d.bcast {
+		if used+overhead+len(b) > limit {
+			break
+		}
+		used += overhead + len(b)
+		out = append(out, b)
+	}
+	d.bcastReturned += len(out)
+	return out
 }
 func (d *vDelegateRec) LocalState(join bool) []byte { return d.localState }
 func (d *vDelegateRec) MergeRemoteState(buf []byte, join bool) {
